@@ -83,16 +83,40 @@ def rule_backlink_table(ctx, rule="C03.4"):
     ctx.sample({"function": VB, "rows": [lf.summary() for lf in leaves]})
 
 
+def rule_ingest_head(ctx, rule="C05.3"):
+    """ingest_operation hands the *stored head of the same log* to the validator on every path"""
+    from mir import calls_to, origins
+    b = ctx.body("p2panda_stream::ingest::operation::ingest_operation::{closure#0}")
+    vpb = calls_to(b, VPB)
+    latest = calls_to(b, "p2panda_store::logs::traits::LogStore::get_latest_entry_tx")
+    ctx.floor(rule, "validate_prunable_backlink / get_latest_entry_tx in ingest_operation", min(len(vpb), len(latest)), 1)
+    if not (vpb and latest):
+        return
+    v, l = vpb[0], latest[0]
+    o = origins(b, v.args[0])
+    other = [rv for _, rv in o.aggs if rv.get("variant") == "None"] + [c for c in o.consts]
+    ctx.ob(rule, "the log head is looked up on every path before the integrity check",
+           b.dominates(l.done_bb, v.bb) and o.from_call("p2panda_store::logs::traits::LogStore::get_latest_entry_tx")
+           and not other,
+           "validate_prunable_backlink can be reached with a head that was not read from the store (lookup "
+           "dominates: %s; other sources of the argument: %s): without the stored head the strictly-growing check "
+           "cannot fire and an older (prune-flagged) operation is stored again"
+           % (b.dominates(l.done_bb, v.bb), [x.get("variant", x.get("c")) for x in other]),
+           site=v.loc(), key="%s:head-always-looked-up" % rule)
+
+
 def run(ctx):
     ctx.level = "proof"
     ctx.explanation = (
-        "Decides the complete decision table of validate_prunable_backlink over seq_num in {0,>0} x "
+        "Decides (a) that ingest_operation passes the stored head of the log to the validator on every path, and (b) "
+        "the complete decision table of validate_prunable_backlink over seq_num in {0,>0} x "
         "prune_flag x head in {None, Some with head.seq <,=,> seq} (validate_backlink inlined): an Ok "
         "row with a possibly existing head entry must establish head.seq_num < seq_num. NOT decided: "
         "which rows LogPrune deletes at run time.")
     ctx.extra["exhaustive"] = True
     ctx.guarded(lambda: rule_table(ctx), "C05")
     ctx.guarded(lambda: rule_backlink_table(ctx, "C05.2"), "C05")
+    ctx.guarded(lambda: rule_ingest_head(ctx, "C05.3"), "C05")
 
 
 MANIFEST = {
